@@ -16,10 +16,12 @@ def c06():
               "invalid identifiers, NULL callback; the arguments reaching timerfd_create/timerfd_settime/epoll_ctl are captured and compared "
               "with an exact 128-bit integer conversion; plus an exhaustive unit-boundary table. (b) ev_fire: rapidcheck histories over 1-3 "
               "channels (socketpair read, socketpair write, 1-12 ms timers) of add/enable/disable/delete (on the owning thread or from "
-              "outside), peer write, drain, peer close, sleep; a per-channel model predicts silent / exactly-once / at-least-once; negative "
+              "outside), peer write, drain, peer close, half close, sleep, descriptor reuse (both ends closed without a delete and a new socket pair "
+              "on the same number while the user record keeps its state); a per-channel model predicts silent / exactly-once / at-least-once; negative "
               "claims are sequenced through the owning thread with fences, awaited callbacks use a 20 s ceiling (3 of 3 runs). (c) ev_proc: "
               "rapidcheck histories over 1-3 real child processes (forked by the harness, exit code 0..255 or killed by SIGKILL) of "
-              "add/enable/disable/delete (valid and malformed flags / filter flags, in-thread or from outside), child exit and sleep, with an "
+              "add/enable/disable/delete (valid and malformed flags / filter flags, in-thread or from outside), child exit and sleep, also for "
+              "processes that are not children of the test process (re-parented grandchildren the pool thread cannot reap), with an "
               "optional injected epoll_ctl failure; a model predicts every return code (EEXIST, ENOENT, ESRCH after the library reaped the "
               "child, EINVAL before the first add), exactly one report per exit carrying TP_FF_P_EXIT and the true wait status, silence after "
               "disable/delete, and the exact number of open process descriptors after every step (pidfd_open is counted through the "
